@@ -3,6 +3,10 @@
 //!
 //! Case lines (decimal numbers):
 //!   new M v | pair M a b | un M a | pow M a d | io M v
+//!   cst M 0                  ZERO, ONE, md(), ZERO == new(0), ONE == new(1)
+//!   chain M v0 ; op ; op ... one accumulator, every result fed back into the next operation (ops: see `chain_step`)
+//!   ios M ; t1 ; ... ; tk    k tokens read from ONE Reader, the values written through ONE Writer and read back
+//!   thr <case>               the same case evaluated on a freshly spawned thread
 //! Operands of `pair`/`un`/`pow` are `i64` constructor arguments (canonical residues in the
 //! exhaustive part, arbitrary `i64` in the random part): the harness always builds values with
 //! `Modular::<M>::new`, the only public constructor.
@@ -13,7 +17,7 @@ use rlib_io::{Reader, Writer};
 use rlib_mint::Modular;
 
 /// moduli inside the property's domain that are not in 2..=64
-const BIG: [u32; 18] = [
+const BIG: [u32; 40] = [
     998244353,  // competition prime
     1000000007, // competition prime
     2147483647, // 2^31 - 1 (prime)
@@ -32,6 +36,29 @@ const BIG: [u32; 18] = [
     1073741825, // 2^30 + 1: the sum of two residues can pass 2^31
     1073741823, // 2^30 - 1
     257,        // Fermat prime: (M-1)^2 = 2^16
+    // wave 3: every other width / precision threshold a narrowed or floating-point fast path could use
+    255,        // u8::MAX
+    256,        // 2^8
+    32767,      // i16::MAX
+    32768,      // 2^15
+    32769,      // 2^15 + 1
+    16777216,   // 2^24: f32 integers end here
+    16777217,   // 2^24 + 1
+    94906266,   // ceil(sqrt(2^53)): (M-1)^2 is still below 2^53
+    94906267,   // (M-1)^2 > 2^53 but even, every ODD product is still below 2^53: the last modulus whose residue products are all exact in f64
+    94906268,   // (M-1)^2 is odd and above 2^53: the first modulus with a residue product that f64 cannot hold
+    181,        // (M-1)^2 < 2^15
+    182,        // (M-1)^2 = 32761: the last modulus whose residue products fit an i16
+    183,        // (M-1)^2 > 2^15
+    4096,       // 2^12
+    4097,       // (M-1)^2 = 2^24: the last modulus whose residue products are exact in f32
+    4098,       // (M-1)^2 > 2^24
+    536870912,  // 2^29
+    715827883,  // (2^31 + 1) / 3, prime: 3M passes 2^31
+    1431655765, // floor(2^32 / 3): 3M = 2^32 - 1
+    1836311903, // Fibonacci F46: with F45 the longest Euclid run and the largest coefficients an i32 inv sees
+    1518500250, // ceil(2^31 / sqrt 2): M^2 passes 2^61
+    2147483643, // 2^31 - 5 (= 3 * 715827881, odd composite next to the limit)
 ];
 /// moduli outside the domain (`S any`): the model mirrors the wrapping casts / overflow panics
 const OOD: [u32; 4] = [1, 2147483648, 2147483649, 4294967295];
@@ -51,6 +78,8 @@ fn dispatch_modulus(m: u32, op: &str, args: &[&str]) -> Option<String> {
         34 35 36 37 38 39 40 41 42 43 44 45 46 47 48 49 50 51 52 53 54 55 56 57 58 59 60 61 62 63 64
         998244353 1000000007 2147483647 2147483629 2147483646 2147483645 65536 15015
         1073741824 46341 46340 46337 65537 65535 65538 1073741825 1073741823 257
+        255 256 32767 32768 32769 16777216 16777217 94906266 94906267 94906268 536870912 715827883
+        1431655765 1836311903 1518500250 2147483643 181 182 183 4096 4097 4098
         1 2147483648 2147483649 4294967295)
 }
 
@@ -179,11 +208,290 @@ fn run_m<const M: u32>(op: &str, args: &[&str]) -> String {
             });
             out1(&format!("w={} r={} rt={}", w, val(&r), rt))
         }
+        "cst" => {
+            let z = Modular::<M>::ZERO;
+            let o = Modular::<M>::ONE;
+            let md = Modular::<M>::md();
+            let eqz = catch(|| z == Modular::<M>::new(0) && !(z != Modular::<M>::new(0)));
+            let eqo = catch(|| o == Modular::<M>::new(1) && !(o != Modular::<M>::new(1)));
+            let sb = |r: &Result<bool, String>| match r {
+                Ok(b) => b.to_string(),
+                Err(e) => e.clone(),
+            };
+            // the two public aliases name their modulus
+            let alias = match M {
+                998244353 => rlib_mint::Mint998::md().to_string(),
+                1000000007 => rlib_mint::Mint107::md().to_string(),
+                _ => "-".to_string(),
+            };
+            out1(&format!("zero={} one={} md={} eqz={} eqo={} alias={}", z.inner(), o.inner(), md, sb(&eqz), sb(&eqo), alias))
+        }
+        "ios" => {
+            let k = args.len();
+            // the tokens exactly as given, separated by a varying amount of white space
+            let mut text = String::new();
+            for (i, t) in args.iter().enumerate() {
+                text.push_str(t);
+                text.push_str(["\n", " ", "  ", "\t", " \n"][i % 5]);
+            }
+            let text = text.into_bytes();
+            let show = |r: &Result<Vec<Modular<M>>, String>| match r {
+                Ok(v) => format!("[{}]", v.iter().map(|x| x.inner().to_string()).collect::<Vec<_>>().join(",")),
+                Err(e) => e.clone(),
+            };
+            let mut eof = "unknown".to_string();
+            let r = {
+                let t = text.clone();
+                catch(move || {
+                    let mut rd = Reader::new(Box::new(&t[..]));
+                    let v: Vec<Modular<M>> = rd.read_vec(k);
+                    (v, rd.is_eof())
+                })
+            };
+            let r = r.map(|(v, e)| {
+                eof = e.to_string();
+                v
+            });
+            let (w, rt) = match &r {
+                Err(e) => (e.clone(), e.clone()),
+                Ok(v) => {
+                    let mut buf: Vec<u8> = Vec::new();
+                    {
+                        let mut wr = Writer::new(Box::new(&mut buf));
+                        wr.write(v);
+                    }
+                    let w = String::from_utf8_lossy(&buf).replace(' ', "_").replace('\n', "\\n");
+                    buf.push(b'\n');
+                    let rt = catch(move || {
+                        let mut rd = Reader::new(Box::new(&buf[..]));
+                        let y: Vec<Modular<M>> = rd.read_vec(k);
+                        y
+                    });
+                    (w, show(&rt))
+                }
+            };
+            // last: the original text once more, so that the LAST Readable call of this case is of the last given token
+            let alt = {
+                let t = text.clone();
+                let vals: Vec<i64> = args.iter().map(|t| t.parse::<i64>().unwrap()).collect();
+                catch(move || {
+                    let mut rd = Reader::new(Box::new(&t[..]));
+                    let mut v: Vec<Modular<M>> = Vec::new();
+                    let mut i = 0;
+                    while i < k {
+                        if i % 4 == 2 && i + 1 < k {
+                            // a tuple of two values in one call
+                            let (a, b): (Modular<M>, Modular<M>) = rd.read();
+                            v.push(a);
+                            v.push(b);
+                            i += 2;
+                        } else if i % 2 == 1 {
+                            // a plain i64 between two Modular values: the token must not have been touched
+                            let w: i64 = rd.read();
+                            if w != vals[i] {
+                                panic!("I64-TOKEN-MISREAD");
+                            }
+                            v.push(Modular::<M>::new(w));
+                            i += 1;
+                        } else {
+                            v.push(rd.read());
+                            i += 1;
+                        }
+                    }
+                    v
+                })
+            };
+            out1(&format!("r={} alt={} w={} rt={} eof={}", show(&r), show(&alt), w, rt, eof))
+        }
         _ => "I bad-op | V bad-op".to_string(),
     }
 }
 
+/// One step of a `chain` case on the accumulator.  Every way of spelling an operation (by value, assigning, the same
+/// object on both sides) and every way of copying a value is a separate op name; the model has one step for each group.
+#[allow(clippy::clone_on_copy, clippy::eq_op, clippy::misrefactored_assign_op)]
+fn chain_step<const M: u32>(acc: Modular<M>, op: &str, arg: Option<&str>) -> Result<Modular<M>, String> {
+    let operand = |a: Option<&str>| -> Result<Modular<M>, String> {
+        let v = a.and_then(|t| t.parse::<i64>().ok()).ok_or_else(|| "INVALID".to_string())?;
+        catch(|| Modular::<M>::new(v))
+    };
+    match op {
+        "+" => { let y = operand(arg)?; catch(|| acc + y) }
+        "+=" => { let y = operand(arg)?; catch(|| { let mut t = acc; t += y; t }) }
+        "-" => { let y = operand(arg)?; catch(|| acc - y) }
+        "-=" => { let y = operand(arg)?; catch(|| { let mut t = acc; t -= y; t }) }
+        "r-" => { let y = operand(arg)?; catch(|| y - acc) }
+        "*" => { let y = operand(arg)?; catch(|| acc * y) }
+        "*=" => { let y = operand(arg)?; catch(|| { let mut t = acc; t *= y; t }) }
+        "/" => { let y = operand(arg)?; catch(|| acc / y) }
+        "/=" => { let y = operand(arg)?; catch(|| { let mut t = acc; t /= y; t }) }
+        "r/" => { let y = operand(arg)?; catch(|| y / acc) }
+        "neg" => catch(|| -acc),
+        "inv" => catch(|| acc.inv()),
+        "pow" => {
+            let d = arg.and_then(|t| t.parse::<u64>().ok()).ok_or_else(|| "INVALID".to_string())?;
+            catch(|| acc.pow(d))
+        }
+        "sq" => catch(|| acc * acc),
+        "sq=" => catch(|| { let mut t = acc; t *= t; t }),
+        "dbl" => catch(|| acc + acc),
+        "dbl=" => catch(|| { let mut t = acc; t += t; t }),
+        "ssub" => catch(|| acc - acc),
+        "ssub=" => catch(|| { let mut t = acc; t -= t; t }),
+        "sdiv" => catch(|| acc / acc),
+        "sdiv=" => catch(|| { let mut t = acc; t /= t; t }),
+        "clone" => {
+            let c = catch(|| Clone::clone(&acc))?;
+            if c.inner() != acc.inner() { return Err(format!("CLONE-MISMATCH({},{})", acc.inner(), c.inner())); }
+            Ok(c)
+        }
+        "clonefrom" => {
+            // into a fresh destination and into one that already has a history
+            let mut fresh = Modular::<M>::ZERO;
+            let mut used = catch(|| Modular::<M>::new(0x5DEECE66D) * Modular::<M>::new(-7) + Modular::<M>::ONE)?;
+            catch(|| { fresh.clone_from(&acc); used.clone_from(&acc); })?;
+            if fresh.inner() != acc.inner() || used.inner() != acc.inner() {
+                return Err(format!("CLONEFROM-MISMATCH({},{},{})", acc.inner(), fresh.inner(), used.inner()));
+            }
+            Ok(used)
+        }
+        "copy" => {
+            let c = acc;
+            let arr = [c; 4];
+            let t = (arr[3], 1u8);
+            let b = Box::new(t.0);
+            if b.inner() != acc.inner() { return Err(format!("COPY-MISMATCH({},{})", acc.inner(), b.inner())); }
+            Ok(*b)
+        }
+        "vec" => {
+            let v = vec![acc; 3];
+            let w = catch(|| v.clone())?;
+            let mut u = vec![Modular::<M>::ONE; 2];
+            catch(|| u.clone_from(&w))?;
+            let same = catch(|| v == w && !(v != w) && u[..] == v[..] && Some(acc) == Some(u[2]) && !(Some(acc) != Some(w[1])))?;
+            if !same || u.len() != 3 || u[2].inner() != acc.inner() || w[0].inner() != acc.inner() {
+                return Err("VEC-MISMATCH".to_string());
+            }
+            Ok(u[2])
+        }
+        "fmt" => {
+            // Display, Debug, to_string and the Writable bytes of a value that came out of an operation: all the decimal text of inner()
+            let want = acc.inner().to_string();
+            let mut buf: Vec<u8> = Vec::new();
+            let texts = catch(|| {
+                { let mut wr = Writer::new(Box::new(&mut buf)); wr.write(&acc); }
+                [format!("{}", acc), format!("{:?}", acc), acc.to_string(), format!("{:?}", Some(acc)), String::from_utf8_lossy(&buf).to_string()]
+            })?;
+            let some = format!("Some({})", want);
+            let wants = [&want, &want, &want, &some, &want];
+            if texts.iter().zip(wants.iter()).any(|(a, b)| a != *b) {
+                return Err(format!("FMT-MISMATCH({})", texts.join("|").replace(' ', "_")));
+            }
+            Ok(acc)
+        }
+        "rt" => {
+            let mut buf: Vec<u8> = Vec::new();
+            catch(|| { let mut wr = Writer::new(Box::new(&mut buf)); wr.write(&acc); })?;
+            buf.push(b'\n');
+            catch(move || { let mut rd = Reader::new(Box::new(&buf[..])); let y: Modular<M> = rd.read(); y })
+        }
+        "renew" => catch(|| Modular::<M>::new(acc.inner() as i64)),
+        "zero" => Ok(Modular::<M>::ZERO),
+        "one" => Ok(Modular::<M>::ONE),
+        "eq" => {
+            let y = operand(arg)?;
+            let (e1, e2, n1, n2) = catch(|| (acc == y, y == acc, acc != y, y != acc))?;
+            if e1 != e2 || n1 == e1 || n2 == e2 { return Err(format!("EQ-INCONSISTENT({},{},{},{})", e1, e2, n1, n2)); }
+            catch(|| acc + if e1 { Modular::<M>::ONE } else { Modular::<M>::ZERO })
+        }
+        _ => Err("INVALID".to_string()),
+    }
+}
+
+fn run_chain<const M: u32>(v0: i64, ops: &[&str]) -> String {
+    let mut acc = match catch(|| Modular::<M>::new(v0)) {
+        Ok(x) => x,
+        Err(e) => return out1(&format!("operand:{}", e)),
+    };
+    let mut outs: Vec<String> = vec![acc.inner().to_string()];
+    for o in ops {
+        let mut it = o.split_whitespace();
+        let name = it.next().unwrap_or("");
+        let arg = it.next();
+        match chain_step::<M>(acc, name, arg) {
+            Ok(x) => {
+                acc = x;
+                outs.push(x.inner().to_string());
+            }
+            Err(e) if e == "INVALID" => return "I INVALID | V INVALID".to_string(),
+            Err(e) => {
+                outs.push(e);
+                break;
+            }
+        }
+    }
+    out1(&format!("[{}]", outs.join(",")))
+}
+
+macro_rules! dispatch_chain {
+    ($m:expr, $v0:expr, $ops:expr; $($lit:literal)*) => {
+        match $m {
+            $( $lit => Some(run_chain::<$lit>($v0, $ops)), )*
+            _ => None,
+        }
+    };
+}
+
+fn dispatch_chain_modulus(m: u32, v0: i64, ops: &[&str]) -> Option<String> {
+    dispatch_chain!(m, v0, ops;
+        2 3 4 5 6 7 8 9 10 11 12 13 14 15 16 17 18 19 20 21 22 23 24 25 26 27 28 29 30 31 32 33
+        34 35 36 37 38 39 40 41 42 43 44 45 46 47 48 49 50 51 52 53 54 55 56 57 58 59 60 61 62 63 64
+        998244353 1000000007 2147483647 2147483629 2147483646 2147483645 65536 15015
+        1073741824 46341 46340 46337 65537 65535 65538 1073741825 1073741823 257
+        255 256 32767 32768 32769 16777216 16777217 94906266 94906267 94906268 536870912 715827883
+        1431655765 1836311903 1518500250 2147483643 181 182 183 4096 4097 4098)
+}
+
 fn run_case(line: &str) -> String {
+    let line = line.trim();
+    if let Some(rest) = line.strip_prefix("thr ") {
+        // the same case on a freshly spawned thread (thread-local state starts from scratch there)
+        let rest = rest.to_string();
+        return match std::thread::spawn(move || run_case(&rest)).join() {
+            Ok(s) => s,
+            Err(_) => "I thread-died | V thread-died".to_string(),
+        };
+    }
+    if line.starts_with("ios ") {
+        // `ios M ; t1 ; t2 ...` (shrunk by deleting tokens): handled as the op `ios` with the tokens as arguments
+        let parts: Vec<&str> = line.split(';').map(|p| p.trim()).collect();
+        let hdr: Vec<&str> = parts[0].split_whitespace().collect();
+        let toks: Vec<&str> = parts[1..].to_vec();
+        let ok = hdr.len() == 2 && !toks.is_empty() && toks.iter().all(|t| !t.is_empty() && !t.contains(char::is_whitespace) && t.parse::<i64>().is_ok());
+        let m = hdr.get(1).and_then(|t| t.parse::<u32>().ok());
+        return match (ok, m) {
+            (true, Some(m)) => match dispatch_modulus(m, "ios", &toks) {
+                Some(s) => s,
+                None => "I unsupported-modulus | V unsupported-modulus".to_string(),
+            },
+            _ => "I INVALID | V INVALID".to_string(),
+        };
+    }
+    if line.starts_with("chain ") {
+        let parts: Vec<&str> = line.split(';').map(|p| p.trim()).collect();
+        let hdr: Vec<&str> = parts[0].split_whitespace().collect();
+        if hdr.len() != 3 {
+            return "I INVALID | V INVALID".to_string();
+        }
+        let (m, v0) = match (hdr[1].parse::<u32>(), hdr[2].parse::<i64>()) {
+            (Ok(m), Ok(v)) => (m, v),
+            _ => return "I INVALID | V INVALID".to_string(),
+        };
+        return match dispatch_chain_modulus(m, v0, &parts[1..]) {
+            Some(s) => s,
+            None => "I unsupported-modulus | V unsupported-modulus".to_string(),
+        };
+    }
     let toks: Vec<&str> = line.split_whitespace().collect();
     if toks.len() < 3 {
         return "I INVALID | V INVALID".to_string();
@@ -215,6 +523,10 @@ fn boundary_residues(m: u32) -> Vec<i64> {
         0, 1, 2, 3, m - 1, m - 2, m - 3, m / 2, (m + 1) / 2, m / 2 - 1, m / 2 + 1,
         1 << 15, (1 << 16) - 1, 1 << 16, (1 << 16) + 1, 46340, 46341, 1 << 30, (1 << 30) + 1, (1 << 31) - 1,
         3 * 5 * 7, 1 << 8,
+        // wave 3: width / precision thresholds of the products (2^24 f32, 2^26 * 2^27 = 2^53 f64, sqrt(2^53), sqrt(2^61)),
+        // i16 / u8 edges, and the Fibonacci pair that gives the longest Euclid run
+        255, 257, 181, 4096, 32767, 32768, 32769, 1 << 24, (1 << 24) + 1, 1 << 26, 1 << 27, 94906265, 94906266, 94906267, 1 << 29,
+        1518500249, 1518500250, 701408733, 1134903170, m - 1134903170,
     ];
     v.retain(|x| 0 <= *x && *x < m);
     v.sort();
@@ -243,6 +555,9 @@ fn exponents(m: u32) -> Vec<u64> {
         0, 1, 2, 3, 4, 5, 7, 8, m - 1, m, m + 1, m.saturating_sub(2), 2 * m,
         (1 << 31) - 1, 1 << 31, (1 << 32) - 1, 1 << 32, (1 << 32) + 1, 3 << 32, 1 << 33, 1 << 63, (1 << 63) + 1,
         u64::MAX, u64::MAX - 1, 0xAAAA_AAAA_AAAA_AAAA, 0x5555_5555_5555_5555,
+        // wave 3: narrower casts of the exponent (u8 / u16 / i32 / f64) and exponents whose low word is tiny
+        255, 256, 257, 65535, 65536, 65537, (1 << 32) + 2, (1 << 32) + 39, (1 << 32) + 62, (1 << 48) + 1,
+        (1 << 53) - 1, 1 << 53, (1 << 53) + 1, 1 << 62, (1 << 63) - 1, u64::MAX - (u32::MAX as u64), i64::MAX as u64 + 2,
     ];
     v.sort();
     v.dedup();
@@ -283,11 +598,12 @@ fn rand_residue(rng: &mut SplitMix64, m: u32, bnd: &[i64]) -> i64 {
 }
 
 fn rand_exp(rng: &mut SplitMix64, exps: &[u64]) -> u64 {
-    match rng.below(5) {
+    match rng.below(6) {
         0 => *rng.pick(exps),
         1 => rng.below(64),
         2 => rng.next_u64() >> rng.below(64),
         3 => (rng.below(1 << 20)) << 32,
+        4 => ((1 + rng.below(1 << 20)) << [8u64, 16, 32, 40][rng.below(4) as usize]) + rng.below(3),
         _ => rng.next_u64(),
     }
 }
@@ -394,6 +710,129 @@ impl<'a> Gen<'a> {
             self.st.bump("new_arg_i64_extreme");
         }
     }
+    fn cst(&mut self, m: u32) {
+        (self.emit)(format!("cst {} 0", m));
+        self.st.bump(&format!("cst_{}", class_of(m)));
+    }
+    fn ios(&mut self, m: u32, toks: &[String], how: &str) {
+        (self.emit)(format!("ios {} ; {}", m, toks.join(" ; ")));
+        self.st.bump(&format!("ios_{}_{}", class_of(m), how));
+        self.st.add("ios_tokens", toks.len() as u64);
+        if toks.iter().any(|t| t.starts_with("-0") || (t.starts_with('0') && t.len() > 1)) {
+            self.st.bump("ios_with_minus_zero_or_leading_zeros");
+        }
+        if toks.len() >= 1000 {
+            self.st.bump("ios_ge_1000_tokens");
+        }
+    }
+    /// A history on one accumulator: every result is fed back.  The generator follows the value (in u128 arithmetic) only
+    /// to keep inverses inside the property's domain (operand coprime to M); it is not an oracle.
+    fn chain(&mut self, rng: &mut SplitMix64, m: u32, len: usize, bnd: &[i64], exps: &[u64], how: &str) {
+        let mm = m as i128;
+        let v0 = if rng.chance(1, 2) { rand_i64(rng, m) } else { rand_residue(rng, m, bnd) };
+        let mut acc: i128 = (v0 as i128).rem_euclid(mm);
+        let mut line = format!("chain {} {}", m, v0);
+        let unit = |x: i128| gcd_u128(x as u128, mm as u128) == 1;
+        let inv = |x: i128| -> i128 {
+            // Bezout in i128 (x coprime to m)
+            let (mut a, mut b, mut u, mut w) = (x.rem_euclid(mm), mm, 1i128, 0i128);
+            while a != 0 {
+                let q = b / a;
+                b -= q * a;
+                w -= q * u;
+                std::mem::swap(&mut a, &mut b);
+                std::mem::swap(&mut u, &mut w);
+            }
+            w.rem_euclid(mm)
+        };
+        for _ in 0..len {
+            let v = match rng.below(5) {
+                0 => rand_i64(rng, m),
+                1 => *rng.pick(bnd),
+                2 => rng.range_i64(-3, 3),
+                3 => acc as i64, // the value itself as the constructor argument of the other operand
+                _ => rand_residue(rng, m, bnd),
+            };
+            let vr = (v as i128).rem_euclid(mm);
+            let k = rng.below(36);
+            let (name, arg): (&str, Option<String>) = match k {
+                0 => ("+", Some(v.to_string())),
+                1 => ("+=", Some(v.to_string())),
+                2 => ("-", Some(v.to_string())),
+                3 => ("-=", Some(v.to_string())),
+                4 => ("r-", Some(v.to_string())),
+                5 => ("*", Some(v.to_string())),
+                6 | 7 => ("*=", Some(v.to_string())),
+                8 | 9 if unit(vr) => (if k == 8 { "/" } else { "/=" }, Some(v.to_string())),
+                10 if unit(acc) => ("r/", Some(v.to_string())),
+                11 => ("neg", None),
+                12 | 13 if unit(acc) => ("inv", None),
+                14 | 15 => ("pow", Some(rand_exp(rng, exps).to_string())),
+                16 => ("sq", None),
+                17 => ("sq=", None),
+                18 => ("dbl", None),
+                19 => ("dbl=", None),
+                20 => (if rng.chance(1, 2) { "ssub" } else { "ssub=" }, None),
+                21 if unit(acc) => (if rng.chance(1, 2) { "sdiv" } else { "sdiv=" }, None),
+                22 => ("clone", None),
+                23 => ("clonefrom", None),
+                24 => ("copy", None),
+                25 => ("vec", None),
+                26 => (if rng.chance(1, 2) { "rt" } else { "fmt" }, None),
+                27 => ("renew", None),
+                28 => (if rng.chance(1, 2) { "zero" } else { "one" }, None),
+                29 | 30 => ("eq", Some((if rng.chance(1, 2) { acc as i64 + rng.range_i64(-1, 1) * (m as i64) } else { v }).to_string())),
+                _ => ("+", Some(v.to_string())),
+            };
+            let a: i128 = arg.as_ref().map(|t| t.parse::<i128>().unwrap()).unwrap_or(0);
+            let ar = a.rem_euclid(mm);
+            acc = match name {
+                "+" | "+=" => (acc + ar) % mm,
+                "-" | "-=" => (acc - ar).rem_euclid(mm),
+                "r-" => (ar - acc).rem_euclid(mm),
+                "*" | "*=" => acc * ar % mm,
+                "/" | "/=" => acc * inv(ar) % mm,
+                "r/" => ar * inv(acc) % mm,
+                "neg" => (-acc).rem_euclid(mm),
+                "inv" => inv(acc),
+                "pow" => {
+                    let (mut r, mut b, mut d) = (1i128 % mm, acc, a as u128);
+                    while d != 0 {
+                        if d & 1 == 1 {
+                            r = r * b % mm;
+                        }
+                        b = b * b % mm;
+                        d >>= 1;
+                    }
+                    r
+                }
+                "sq" | "sq=" => acc * acc % mm,
+                "dbl" | "dbl=" => (acc + acc) % mm,
+                "ssub" | "ssub=" => 0,
+                "sdiv" | "sdiv=" => 1 % mm,
+                "zero" => 0,
+                "one" => 1 % mm,
+                "eq" => (acc + if ar == acc { 1 } else { 0 }) % mm,
+                _ => acc,
+            };
+            line.push_str(" ; ");
+            line.push_str(name);
+            if let Some(t) = &arg {
+                line.push(' ');
+                line.push_str(t);
+            }
+            self.st.bump(&format!("chain_op_{}", name));
+            if acc == 46341 {
+                self.st.bump("chain_accumulator_passes_46341");
+            }
+        }
+        (self.emit)(line);
+        self.st.bump(&format!("chain_{}_{}", class_of(m), how));
+        self.st.add("chain_ops_total", len as u64);
+        if len >= 500 {
+            self.st.bump("chain_ge_500_ops");
+        }
+    }
     fn io(&mut self, m: u32, v: i64, how: &str) {
         (self.emit)(format!("io {} {}", m, v));
         self.st.bump(&format!("io_{}_{}", class_of(m), how));
@@ -407,13 +846,23 @@ impl<'a> Gen<'a> {
 }
 
 fn gen(args: &Args, emit: &mut dyn FnMut(String), st: &mut Stats) {
-    let thorough = args.tier == "thorough";
+    // the debug build profile (debug_assert!, cfg(debug_assertions) paths) runs a lighter version of every stream:
+    // in the thorough tier its random parts are 5 times the quick ones, the exhaustive parts stay those of the quick tier
+    let lite = args.extra.get("profile").map(|p| p == "debug").unwrap_or(false);
+    let thorough = args.tier == "thorough" && !lite;
+    let lt: u64 = if lite && args.tier == "thorough" { 5 } else { 1 };
     let mut rng = SplitMix64::new(args.seed ^ 0xC06);
     let mut g = Gen { emit, st };
+    if lite {
+        g.st.bump("lite_stream_for_debug_profile");
+    }
 
     // (1) exhaustive small scope: every modulus 2..=64, every operand pair, every operation
     for m in 2u32..=64 {
         let mi = m as i64;
+        if lite && !(m <= 12 || m == 16 || m == 32) {
+            continue;
+        }
         for a in 0..mi {
             for b in 0..mi {
                 g.pair(m, a, b, "exhaustive");
@@ -426,8 +875,9 @@ fn gen(args: &Args, emit: &mut dyn FnMut(String), st: &mut Stats) {
             }
             // boundary exponents: every base in the thorough tier and for m <= 16, the extreme bases otherwise
             if thorough || m <= 16 || a <= 2 || a >= mi - 2 || a == mi / 2 {
-                for d in exponents(m) {
-                    if d > win {
+                for (j, d) in exponents(m).into_iter().enumerate() {
+                    // quick tier, m > 16: a rotating half of the boundary exponents per base
+                    if d > win && (thorough || m <= 16 || (j + a as usize + m as usize) % 2 == 0) {
                         g.pow(m, a, d, "boundary");
                     }
                 }
@@ -448,7 +898,7 @@ fn gen(args: &Args, emit: &mut dyn FnMut(String), st: &mut Stats) {
             g.new(m, v, "boundary");
             g.io(m, v, "boundary");
         }
-        let n = if thorough { 400 } else { 40 };
+        let n = if thorough { 400 } else if lite { 10 * lt } else { 40 };
         for _ in 0..n {
             let v = rand_i64(&mut rng, m);
             g.new(m, v, "random");
@@ -464,13 +914,24 @@ fn gen(args: &Args, emit: &mut dyn FnMut(String), st: &mut Stats) {
     for &m in BIG.iter() {
         let bnd = boundary_residues(m);
         let exps = exponents(m);
-        for &a in &bnd {
-            for &b in &bnd {
-                g.pair(m, a, b, "boundary");
+        // quick tier: the full cross products for the core values (and every value with itself), a rotating half / third
+        // of the remaining combinations (a different part for every modulus); thorough tier: everything
+        let mi = m as i64;
+        let core = |x: i64| x <= 3 || x >= mi - 3 || x == mi / 2 || x == 46340 || x == 46341 || x == 1 << 16;
+        let rot = (m % 6) as usize;
+        for (i, &a) in bnd.iter().enumerate() {
+            for (j, &b) in bnd.iter().enumerate() {
+                let keep = if lite { i == j || (core(a) && core(b)) || (i + j + rot) % 8 == 0 } else { i == j || core(a) || core(b) || (i + j + rot) % 2 == 0 };
+                if thorough || keep {
+                    g.pair(m, a, b, "boundary");
+                }
             }
             g.un(m, a, "boundary");
-            for &d in &exps {
-                g.pow(m, a, d, "boundary");
+            for (j, &d) in exps.iter().enumerate() {
+                let keep = if lite { (core(a) && (i + j) % 2 == 0) || (i + j + rot) % 9 == 0 } else { core(a) || (i + j + rot) % 3 == 0 };
+                if thorough || keep {
+                    g.pow(m, a, d, "boundary");
+                }
             }
         }
         for v in ctor_args(m) {
@@ -479,15 +940,16 @@ fn gen(args: &Args, emit: &mut dyn FnMut(String), st: &mut Stats) {
             g.un(m, v, "boundary");
         }
         // small residues exhaustively (inverse of everything up to 300, every pair up to 40)
-        for a in 0..300.min(m as i64) {
+        let (nu, np) = if thorough { (300, 40) } else if lite { (40, 8) } else { (200, 28) };
+        for a in 0..nu.min(m as i64) {
             g.un(m, a, "exhaustive");
         }
-        for a in 0..40.min(m as i64) {
-            for b in 0..40.min(m as i64) {
+        for a in 0..np.min(m as i64) {
+            for b in 0..np.min(m as i64) {
                 g.pair(m, m as i64 - 1 - a, b, "exhaustive");
             }
         }
-        let n = if thorough { 70_000 } else { 1_000 };
+        let n = if thorough { 20_000 } else if lite { 60 * lt } else { 300 };
         for _ in 0..n {
             let (a, b) = (rand_residue(&mut rng, m, &bnd), rand_residue(&mut rng, m, &bnd));
             // complementary residues (a + b = M, M ± 1) one time in eight
@@ -546,8 +1008,103 @@ fn gen(args: &Args, emit: &mut dyn FnMut(String), st: &mut Stats) {
                 g.pow(m2, v, d, "interleaved");
                 g.st.bump(if m1 < m2 { "interleave_small_to_large_modulus" } else { "interleave_large_to_small_modulus" });
                 g.st.bump("interleave_same_op_twice_in_a_row");
+                if lite {
+                    break;
+                }
+            }
+            // wave 3: (i) state keyed by the ARGUMENT of `new` / `Readable` / `+ - *` (not only by a residue below both
+            // moduli): the same non-canonical i64 under M1, M2, M2; (ii) the second modulus on a freshly spawned
+            // thread and back on the main thread; (iii) the same history (results fed back) under M1 then M2
+            let big = (m1 as i64) * (m2 as i64);
+            let ws = [
+                rng.next_u64() as i64,
+                -(rng.below(1 << 40) as i64) - (m1.max(m2) as i64),
+                big.wrapping_add(rng.range_i64(1, 5)),
+                i64::MIN + rng.range_i64(0, 3),
+            ];
+            let w = *rng.pick(&ws);
+            let w2 = rand_i64(&mut rng, m2);
+            // grouped by operation: the LAST call of one case and the FIRST call of the next are the same function with the same argument
+            for &m in &[m1, m2, m2] {
+                g.new(m, w, "interleaved");
+            }
+            for &m in &[m1, m2, m2] {
+                g.pair(m, w, w2, "interleaved");
+            }
+            for &m in &[m1, m2, m2] {
+                g.io(m, w, "interleaved");
+            }
+            // one token, read several times in a row under M1 then under M2: a non-canonical one, and one that is a residue of the
+            // larger modulus only
+            let (lo, hi) = (m1.min(m2) as i64, m1.max(m2) as i64);
+            let wc = rng.range_i64(lo, hi - 1);
+            for t in [w, wc] {
+                for &m in &[m1, m2, m2] {
+                    g.ios(m, &[t.to_string()], "interleaved");
+                }
+            }
+            if !vs.is_empty() {
+                let v = vs[rng.below(vs.len() as u64) as usize];
+                g.un(m1, v, "interleaved");
+                (g.emit)(format!("thr un {} {}", m2, v));
+                g.un(m2, v, "interleaved");
+                (g.emit)(format!("thr pair {} {} {}", m1, w, v));
+                (g.emit)(format!("thr pow {} {} {}", m2, v, u64::MAX));
+                g.st.add("interleave_fresh_thread_cases", 3);
+                let hist = format!("inv ; sq ; * {} ; inv ; r/ {} ; + {} ; neg ; pow 5 ; eq 1 ; rt ; /= {}", v, w | 1, w, v);
+                for &m in &[m1, m2, m2] {
+                    (g.emit)(format!("chain {} {} ; {}", m, v, hist));
+                    g.st.bump("chain_interleaved");
+                }
             }
         }
+    }
+
+    // (2c) wave 3: constants, token sequences, histories that feed results back - for EVERY compiled-in modulus of the domain
+    let all_moduli: Vec<u32> = (2u32..=64).chain(BIG.iter().copied()).collect();
+    for &m in &all_moduli {
+        let bnd = boundary_residues(m);
+        let exps = exponents(m);
+        let small = m <= 64;
+        g.cst(m);
+        // token sequences: boundary constructor arguments, -0 / leading zeros, random i64
+        let mut toks: Vec<String> = vec!["-0".into(), "0".into(), "007".into(), "-007".into(), "-00".into(), format!("-{}", m), format!("-0{}", 2 * m as u64)];
+        for v in ctor_args(m) {
+            toks.push(v.to_string());
+        }
+        g.ios(m, &toks, "boundary");
+        let nseq = if thorough { 40 } else if lite { 2 * lt } else if small { 2 } else { 8 };
+        for _ in 0..nseq {
+            let k = 1 + rng.below(12) as usize;
+            let toks: Vec<String> = (0..k).map(|_| {
+                let v = rand_i64(&mut rng, m);
+                if rng.chance(1, 10) { format!("{}{:04}", if v < 0 { "-" } else { "" }, v.unsigned_abs() % 1000) } else { v.to_string() }
+            }).collect();
+            g.ios(m, &toks, "random");
+        }
+        // every way of copying / printing / re-reading / comparing a value, on EVERY boundary residue (every residue of a small modulus)
+        let vals: Vec<i64> = if small { (0..m as i64).collect() } else { bnd.clone() };
+        for (i, &a) in vals.iter().enumerate() {
+            if lite && i % 3 != 0 {
+                continue;
+            }
+            (g.emit)(format!("chain {} {} ; clone ; clonefrom ; copy ; vec ; fmt ; rt ; renew ; eq {} ; eq {}", m, a, a, a + 1));
+            g.st.bump("chain_copy_group_on_boundary_value");
+        }
+        let nch = if thorough { 300 } else if lite { 4 * lt } else if small { 6 } else { 60 };
+        for i in 0..nch {
+            let len = if i % 4 == 0 { 4 } else { 8 + rng.below(16) as usize };
+            g.chain(&mut rng, m, len, &bnd, &exps, "random");
+        }
+    }
+    // a few long ones (sizes beyond small scope): a history of ~1500 steps, a token sequence that passes the Reader's buffer
+    let long_moduli: &[u32] = if thorough { &BIG } else { &[998244353, 2147483647, 46341, 7] };
+    for &m in long_moduli {
+        let (bnd, exps) = (boundary_residues(m), exponents(m));
+        g.chain(&mut rng, m, if thorough { 6000 } else { 1500 }, &bnd, &exps, "long");
+        let k = if thorough { 20_000 } else { 5_000 };
+        let toks: Vec<String> = (0..k).map(|_| rand_i64(&mut rng, m).to_string()).collect();
+        g.ios(m, &toks, "long");
     }
 
     // (3) moduli outside the domain (documentation of the guard; the model mirrors casts and panics)
